@@ -5,6 +5,7 @@ import (
 	"fmt"
 	"os"
 	"strings"
+	"time"
 
 	"github.com/jub0bs/cors"
 	"github.com/jub0bs/cors/internal/zzverif/ref"
@@ -252,7 +253,7 @@ func c08Test(k c08Case) string {
 }
 
 func checkC08(c *vlib.Ctx) (string, string) {
-	ck := &Checker[c08Case]{C: c, Judge: c08Judge, Test: c08Test}
+	ck := &Checker[c08Case]{C: c, Judge: c08Judge, Test: c08Test, Watchdog: 20 * time.Second}
 	rule := "from every state of the closure of {SetDebug, Reconfigure(nil/A/B/C/invalid/Config())} on the real Middleware (both initial states), every invalid configuration of a 19-element family (single and multiple defects in every field, other fields valid and different from every state) and of 6 edits of the current Config() (current origins kept as a prefix plus near-miss patterns, one defect elsewhere) is passed to Reconfigure, then every continuation of length <= 2 is applied to it and to an untouched twin (bounded bisimulation); non-trivial = distinct (state, invalid configuration, continuation) with a configured start state"
 	if ck.Replay() {
 		return levelMC, rule
